@@ -30,7 +30,13 @@ def one(name):
         if r.returncode != 0:
             return name, 'patch does not apply'
         checks, rules = [], {}
-        for p in PROPS:
+        props = PROPS
+        if os.environ.get('RECHECK_FAST'):
+            # the seed's own property and the ones that reported it at the last full re-check
+            prev = json.load(open(meta_p)).get('checks_reporting_it', [])
+            keep = {name.split('-')[0]} | {c[:3] for c in prev}
+            props = [p_ for p_ in PROPS if p_ in keep]
+        for p in props:
             r = subprocess.run(['/venv/bin/python', '-I', '/verif/check.py', p, '--root', tmp,
                                 '--no-evidence'], capture_output=True, text=True, timeout=900)
             if r.returncode == 1 and 'VIOLATION' in r.stdout:
@@ -53,7 +59,7 @@ if __name__ == '__main__':
     names = sorted(os.listdir(SEEDED))
     if len(sys.argv) > 1:
         names = [n for n in names if any(a in n for a in sys.argv[1:])]
-    with ThreadPoolExecutor(max_workers=5) as ex:
+    with ThreadPoolExecutor(max_workers=int(os.environ.get('RECHECK_WORKERS', '5'))) as ex:
         for name, res in ex.map(one, names):
             own = name.split('-')[0]
             flag = '' if res and own in res else '   <-- own property does not report it'
